@@ -29,6 +29,7 @@ def run(rep, idx, tier):
     rep.require("C14.1", 4)
     rep.require("C14.2", 5)
     rep.require("C14.3", 4)
+    rep.require("C14.4", 3)
     c = get_ctx(idx, "EventMonitor.elaborate")
     ctor = get_ctor(idx, "EventMonitor")
     rep.analysed(c.fi.site, ctor.fi.site)
@@ -103,6 +104,10 @@ def run(rep, idx, tier):
 
     # ---- C14.3 attachment -------------------------------------------------------------------------
     attachment(rep, idx, c, MON, MUX)
+    # ---- C14.4 the pending register is placed right after enable, i.e. not naturally aligned for 3, 5, 6, 7 ... words:
+    # its chunks are reachable only if the multiplexer's shadow hash is its own inverse
+    from . import glue
+    glue.shadow_hash(rep, idx, "C14.4")
 
 
 def attachment(rep, idx, c, MON, MUX):
